@@ -366,9 +366,25 @@ impl Ctx {
             "wall_s": (wall * 1000.0).round() / 1000.0,
             "violations": violations.len(),
         });
-        let evdir = format!("{}/evidence", VERIF_ROOT);
+        let plain_leg = std::env::var("VERIF_LEG").map(|v| v == "plain").unwrap_or(false);
+        let mut ev = ev;
+        if !plain_leg {
+            // summary of the plain-release leg that bin/check ran just before this one
+            if let Ok(p) = std::env::var("VERIF_PLAIN_SUMMARY") {
+                if let Ok(t) = std::fs::read_to_string(&p) {
+                    if let Ok(v) = serde_json::from_str::<Value>(&t) {
+                        ev["coverage"]["plain_release_leg"] = json!({
+                            "profile": "release, debug-assertions off, overflow-checks off (nightly toolchain, feature nightly), quick-tier bounds",
+                            "evaluations": v["coverage"]["evaluations"], "distinct_nontrivial": v["coverage"]["distinct_nontrivial"],
+                            "states": v["coverage"]["states"], "transitions": v["coverage"]["transitions"],
+                            "violations": v["violations"], "wall_s": v["wall_s"]});
+                    }
+                }
+            }
+        }
+        let evdir = if plain_leg { format!("{}/logs", VERIF_ROOT) } else { format!("{}/evidence", VERIF_ROOT) };
         let _ = std::fs::create_dir_all(&evdir);
-        let evpath = format!("{}/{}.json", evdir, self.prop);
+        let evpath = if plain_leg { format!("{}/{}.plain.json", evdir, self.prop) } else { format!("{}/{}.json", evdir, self.prop) };
         std::fs::write(&evpath, serde_json::to_string_pretty(&ev).unwrap() + "\n")
             .expect("cannot write evidence");
         println!(
@@ -386,7 +402,7 @@ impl Ctx {
             }
         }
         if violations.is_empty() {
-            println!("[{}] PASS", self.prop);
+            println!("[{}] PASS{}", self.prop, if plain_leg { " (plain-release leg)" } else { "" });
             0
         } else {
             for (f, p) in &violations {
@@ -410,12 +426,14 @@ pub fn sig_match(pattern: &str, sig: &str) -> bool {
 pub fn write_replay(prop: &str, f: &Fail) -> PathBuf {
     let dir = format!("{}/replays/{}", VERIF_ROOT, prop);
     let _ = std::fs::create_dir_all(&dir);
+    let plain_leg = std::env::var("VERIF_LEG").map(|v| v == "plain").unwrap_or(false);
     let body = json!({
         "property": prop,
         "check": f.check,
         "signature": f.signature,
-        "what": f.what,
+        "what": if plain_leg { format!("[plain-release build] {}", f.what) } else { f.what.clone() },
         "case": f.case,
+        "leg": if plain_leg { "plain" } else { "checked" },
     });
     let text = serde_json::to_string_pretty(&body).unwrap() + "\n";
     let clean: String = f
